@@ -146,7 +146,7 @@ partial def stepCodec (st : TmplSt) (cs : CodecSt) (toks : List String) : Option
       some (st', cs, o)
     | _, _, _ => some (st, cs, "bad-op")
   | ["ds.encode", c] =>
-    match c.toInt?, st.tmpl with
+    match c.toInt?, (if st.hasDts then st.tmpl else none) with   -- no dataset object yet: the harness answers `none`
     | some c, some t =>
       let settled := st.subsets.toList.map fun s => settleNewRefs T t.edition s.nodes
       let ss := settled.map (·.1)
